@@ -792,6 +792,13 @@ class Interp:
             da, db = db, da
         if sym == "is":
             sym = "=="
+        # order comparisons of non-linear values: one three-valued predicate family a<b / b<a
+        if sym == "<=":
+            return pred_not(("cmp", "<", db, da))
+        if sym == ">":
+            return ("cmp", "<", db, da)
+        if sym == ">=":
+            return pred_not(("cmp", "<", da, db))
         return ("cmp", sym, da, db)
 
     def contains(self, container, item, node):
@@ -1119,6 +1126,9 @@ class Interp:
         ck = self.dict_key(key)
         if ck is not None and ck[1] in o.entries:
             return o.entries[ck[1]]
+        # an entry stored earlier on this path under the same symbolic key overrides the generic content
+        if ck is None and ("d", desc(key)) in o.entries:
+            return o.entries[("d", desc(key))]
         # generic key: find an 'each' entry whose key template matches
         for e in o.each:
             _, b, fam, g, kt, vt = e
